@@ -8,7 +8,7 @@ from impl import trees, treeoutput, treeanalysis, quiet, clone
 import gram
 
 ID = "C02"
-MODULE = ['TT.Props.C02', 'TT.Props.C02Export', 'TT.Props.C02Tiger', 'TT.Props.C02Carry', 'TT.Props.C02Disco', 'TT.Props.C03Words']
+MODULE = ['TT.Props.C02', 'TT.Props.C02Export', 'TT.Props.C02Tiger', 'TT.Props.C02Carry', 'TT.Props.C02Disco', 'TT.Props.C03Words', 'TT.Props.C02Decor']
 RULE = ("well-formed trees built through the tree API (all shapes, gap patterns, XML-special / non-ASCII / parenthesis "
         "characters, field lengths 7/8/15/16, lemma/morph/edge present or None, head/split marks present or not) x the "
         "five writers x random subsets of the documented output options; each output is decoded by the specification "
